@@ -168,6 +168,9 @@ def runStdHist (buf : Bytes) : List String → Option (List String)
         else if name = "setfn" then
           let r := StdBuf.stdStep buf (.setFileName a)
           (runStdHist r.1 ops).map (fun t => hexOf r.1 :: t)
+        else if name = "setext" then
+          let r := StdBuf.stdStep buf (.setExtension a)
+          (runStdHist r.1 ops).map (fun t => s!"{hexOf r.1}:{showBool r.2}" :: t)
         else none
     | _ => none
 
